@@ -24,6 +24,10 @@ type qnode struct {
 	// keys of the input beyond what a multiset comparison hides; only these are
 	// applied to values below which a struct iterates in non sorted order
 	ordfree bool
+	// ordfree1: like ordfree but only when applied to a tree value itself (arrays of a
+	// tree keep their order; an array built by an order exposing node does not, and
+	// these nodes pair indices with contents)
+	ordfree1 bool
 	// strkey: string key lookup (documented difference: null instead of an error
 	// on a decode value that is not an object)
 	strkey bool
@@ -39,6 +43,7 @@ func n(text string, uses ...string) qnode { return qnode{text: text, uses: uses}
 
 func (q qnode) c() qnode  { q.core = true; return q }
 func (q qnode) o() qnode  { q.ordfree = true; return q }
+func (q qnode) o1() qnode { q.ordfree1 = true; return q }
 func (q qnode) sk() qnode { q.strkey = true; return q }
 func (q qnode) b() qnode  { q.bytes = true; return q }
 func (q qnode) p(par string) qnode {
@@ -61,8 +66,8 @@ func family() []qnode {
 		n(".[$a:$b]").p("ab").c(),
 		n(".[]").c().o(),
 		n(".[]?").c().o(),
-		n("paths", "paths/0").c().o(),
-		n("paths(scalars)", "paths/1", "scalars/0").c().o(),
+		n("paths", "paths/0").c().o1(),
+		n("paths(scalars)", "paths/1", "scalars/0").c().o1(),
 		n("tojson", "tojson/0").c().o(),
 		n("tostring", "tostring/0").c().o(),
 		n("tonumber", "tonumber/0").c().o(),
@@ -108,7 +113,7 @@ func family() []qnode {
 
 		// --- more of the standard read-only language (1-node only)
 		n("utf8bytelength", "utf8bytelength/0").o().b(),
-		n("[paths]", "paths/0").o(),
+		n("[paths]", "paths/0").o1(),
 		n("[..]").o(),
 		n("map_values(.)", "map_values/1").o(),
 		n("last", "last/0"),
@@ -160,7 +165,7 @@ func family() []qnode {
 		n(`[match("[a-z]"; "g").string]`, "match/2").o(),
 		n(`join(",")`, "join/1"),
 		n("tostream", "tostream/0"),
-		n("fromstream(tostream)", "fromstream/1", "tostream/0").o(),
+		n("fromstream(tostream)", "fromstream/1", "tostream/0").o1(),
 		n("from_entries", "from_entries/0"),
 		n("to_entries | from_entries", "to_entries/0", "from_entries/0"),
 		n("transpose", "transpose/0"),
@@ -179,7 +184,7 @@ func family() []qnode {
 		n("try error catch .", "error/0").o(),
 		n("isempty(.[]?)", "isempty/1").o(),
 		n("[recurse(.[]?; . != null)]", "recurse/2").o(),
-		n("path(..)", "path/1").o(),
+		n("path(..)", "path/1").o1(),
 		n("[.[]?] | length", "length/0").o(),
 		n("{(.): 1}"),
 		n("contains($p)", "contains/1").p("p").o(),
